@@ -497,6 +497,22 @@ class RefSchema:
                     self.strong_dead_ends.append(t.name)
                     break
 
+    def text_merge_safe(self):
+        """False if some content expression distinguishes one text node from two adjacent
+        ones (e.g. 'text text', 'inline{2}'): adjacent text nodes with equal marks always
+        merge, so such an expression cannot be kept satisfied by any editing operation."""
+        if "text" not in self.nodes:
+            return True
+        for t in self.nodes.values():
+            for st in reachable(t.regex):
+                d1 = deriv(st, "text")
+                if d1 is EMPTY:
+                    continue
+                d2 = deriv(d1, "text")
+                if d2 is not EMPTY and d2 is not d1:
+                    return False
+        return True
+
     def _gen_accepting_reachable(self, st):
         seen = {st}
         work = [st]
